@@ -223,15 +223,38 @@ func (c10) exercise(c *fw.Case, rs *jsonschema.Resolved, schemaText string, hasR
 			c.Nontrivial("ApplyDefaults|" + errClass(err))
 		}
 	}
+	// JSON numbers that no Go number can hold / malformed json.Number texts: decided (must return, with an error or not)
+	if r.IntN(4) == 0 && !hasRefs {
+		for _, inst := range []any{json.Number("1e9999999"), json.Number("-1e9999999"), []any{json.Number("1e9999999"), json.Number("1e9999999")}, map[string]any{"a": json.Number("1E400")}, json.Number("abc"), json.Number(""), []any{json.Number("0x10"), json.Number("1")}} {
+			var err error
+			if !c.CallChecked("Validate", map[string]any{"schema": json.RawMessage(jsonOrString(schemaText)), "instance": gen.Describe(inst), "source": what}, func() { err = rs.Validate(inst) }) {
+				return
+			}
+			c.Eval(1)
+			c.Nontrivial("Validate(json.Number edge)|" + errClass(err))
+			holder := inst
+			if !c.CallChecked("ApplyDefaults", map[string]any{"schema": json.RawMessage(jsonOrString(schemaText)), "instance": gen.Describe(inst), "source": what}, func() { err = rs.ApplyDefaults(&holder) }) {
+				return
+			}
+			c.Eval(1)
+		}
+	}
 	// non-JSON kinds: executed and counted, not decided (outside the stated domain)
 	if r.IntN(4) == 0 && !hasRefs { // (with references an in-place cycle cannot be excluded for these instances)
 		type st struct{ A int }
-		for _, inst := range []any{make(chan int), func() {}, complex(1, 2), st{1}, map[int]string{1: "a"}, []any{func() {}, func() {}}, map[string]any{"a": make(chan int)}, []byte("ab"), [](chan int){nil}} {
+		for _, inst := range []any{make(chan int), func() {}, complex(1, 2), st{1}, &st{2}, map[string]st{"a": {1}}, map[string]*st{"a": {1}}, map[int]string{1: "a"}, []any{func() {}, func() {}}, map[string]any{"a": make(chan int)}, []byte("ab"), [](chan int){nil}} {
 			o := fw.Call(func() { _ = rs.Validate(inst) })
 			if o.Panicked {
 				c.Count("nonjson_instance_panics(not decided)", 1)
 			} else {
 				c.Count("nonjson_instance_calls_returned", 1)
+			}
+			holder := inst
+			o = fw.Call(func() { _ = rs.ApplyDefaults(&holder) })
+			if o.Panicked {
+				c.Count("nonjson_applydefaults_panics(not decided)", 1)
+			} else {
+				c.Count("nonjson_applydefaults_calls_returned", 1)
 			}
 		}
 	}
